@@ -31,7 +31,7 @@ theorem inv_tallyOne {env : Env} {s s' : St} {u : String} (hi : Inv s) (h : tall
   split at h
   · simp only [Res.ok.injEq] at h; subst h; exact hi
   rename_i it hfind
-  obtain ⟨hmem, huri⟩ := findItem_some hfind
+  obtain ⟨hmem, huri⟩ := findItem_some8 hfind
   subst huri
   split at h
   · simp only [Res.ok.injEq] at h; subst h; exact hi
